@@ -107,6 +107,20 @@ fn run(s: &mut Sess, cfg: &str, ops: &[Op], target: usize, target_line: usize, k
     // every key readable
     for k in [b"a".to_vec(), b"b".to_vec(), b"c".to_vec()] { let r = s.op(&format!("get {}", hx(&k))); if r.starts_with("err") { s.out.oracle_fail(format!("C14: `get {}` after reopen: {r}", hx(&k))); } }
     s.op("stats"); s.op("blobs");
+    // the fault must not poison what comes after the restart either: an operation acknowledged
+    // now (on a key the failed operation never touched) survives the next restart
+    let cur: Map = { let mut m2 = Map::new(); for part in got.split(';') { if part == "_" { continue; } let f: Vec<&str> = part.split(':').collect(); if f.len() == 3 { m2.insert(crate::wire::unhx(f[0]), f[1].as_bytes().to_vec()); } } m2 };
+    s.op(&format!("put {} ={}", hx(b"d"), hx(b"after-restart")));
+    s.op("close");
+    s.op("trace");
+    let r = s.op("open");
+    if !r.starts_with("ok") { s.out.oracle_fail(format!("C14: second reopen failed: {r}")); return events; }
+    let r = s.op(&format!("get {}", hx(b"d")));
+    if r != format!("found {} {}", b"after-restart".len(), hx(blake3::hash(b"after-restart").as_bytes())) { s.out.oracle_fail(format!("C14: a put acknowledged after the restart is gone after the next restart: get d = `{r}`")); }
+    let got2 = s.op("iter");
+    let keys2: Vec<&str> = got2.split(';').filter(|p| *p != "_").map(|p| p.split(':').next().unwrap_or("")).collect();
+    for k in cur.keys() { if !keys2.contains(&hx(k).as_str()) { s.out.oracle_fail(format!("C14: key {} vanished at the second restart", hx(k))); } }
+    s.op("stats"); s.op("blobs");
     s.op("close");
     s.op("trace");
     events
@@ -149,6 +163,14 @@ pub fn c14(s: &mut Sess, rng: &mut Rng, n: u64) {
         if i % 6 != 4 {
             cont.push(Op::Put(keys[rng.below(3) as usize].to_vec(), contents[rng.below(3) as usize].to_vec()));
             if rng.chance(1, 3) { cont.push(Op::Checkpoint); }
+            // a checkpoint as the very first thing after the failed operation (it persists the
+            // burnt version and may prune every segment), then whatever follows
+            match rng.below(3) {
+                0 => cont.insert(0, Op::Checkpoint),
+                // … or nothing else at all before the restart
+                1 => { cont.clear(); cont.push(Op::Checkpoint); }
+                _ => {}
+            }
         }
         let Some(nev) = run(s, &cfg, &ops, target, target_line, 1_000_000, &cont) else { continue };
         s.out.add("fault.points", nev);
